@@ -29,7 +29,8 @@ SPEC = {
              "= at least 2 trace files with at least 2 data rows each; distinct = distinct case."),
     "shards": {"quick": 16, "thorough": 16},
     "min_counts": {"quick": {"evaluations": 100, "files_checked": 600, "rows_matched": 1500, "flush_variants_compared": 300,
-                             "inserting_visits": 20, "noninserting_visits": 300, "project_rows": 30, "startpos_traces": 30, "bounded_nests": 30}},
+                             "inserting_visits": 20, "noninserting_visits": 300, "project_rows": 30, "startpos_traces": 30, "bounded_nests": 30,
+                             "projections_with_start_pos": 60, "stale_file_sessions": 30}},
     "assumptions": [
         "traced loop nests use at most two operands per loop level (one & per level, optionally under one <<) so each trace file maps to one operand by the label rule; integer coordinates",
         "destination-side traces of an inserting populate (first source coordinate below the destination's maximum, compressed destination) are only required to be stamp-ordered and complete",
@@ -50,6 +51,13 @@ def generate(rng, tier, shard, nshards, mon):
             yield {"kind": "startpos", "f": gen.rand_leaf_spec(rng, rng.randint(2, 10), 0.7, 0.25, 0), "r": rng.randrange(1 << 16),
                    "mode": rng.choice(["iterOccupancy", "iterRange", "iterActive", "iter"]), "s": rng.randint(0, 5), "e": rng.randint(3, 11)}
             continue
+        if i % 10 == 8:
+            # two collections under one prefix: the second one's files must describe the second one only
+            M, K = rng.randint(1, 3), rng.randint(1, 5)
+            yield {"kind": "stale", "M": M, "K": K, "a1": gen.rand_tree_spec(rng, [M, K], 0.9, 0.0, 0),
+                   "a2": gen.rand_tree_spec(rng, [M, K], rng.choice([0.0, 0.0, 0.5, 0.9]), 0.0, 0),
+                   "order": rng.choice(["file", "mem-then-file", "file-then-mem"]), "ncu": rng.choice([2, 1000])}
+            continue
         if i % 10 == 6:
             # inner intersection consumed through a bounded range that may end before the operands do
             M, K = rng.randint(1, 4), rng.randint(2, 8)
@@ -62,7 +70,10 @@ def generate(rng, tier, shard, nshards, mon):
             continue
         if i % 5 == 4:
             yield {"kind": "project", "a": gen.rand_leaf_spec(rng, rng.randint(1, 9), 0.7, 0.2, 0), "shift": rng.randint(0, 3),
-                   "interval": [0, rng.randint(1, 9)], "z": gen.rand_leaf_spec(rng, 6, 0.3, 0.0, 0)}
+                   "interval": rng.choice([[0, rng.randint(1, 9)], [rng.randint(1, 3), rng.randint(4, 9)]]),
+                   "z": gen.rand_leaf_spec(rng, 6, 0.3, 0.0, 0),
+                   # a (valid) start position for the projection, plain or boxed
+                   "sp": rng.choice(["none", "plain", "boxed", "boxed"]), "spr": rng.randrange(1 << 16)}
             continue
         spec = kernels.rand_spec(rng, family=rng.choice(FAMS), tiles=True)
         spec["style"] = "two-finger"
@@ -294,6 +305,8 @@ def run_case(case, mon):
             _run_startpos(case, mon, os.path.join(tmp, "s"))
         elif case["kind"] == "bounded":
             _run_bounded(case, mon, os.path.join(tmp, "b"))
+        elif case["kind"] == "stale":
+            _run_stale(case, mon, os.path.join(tmp, "r"))
         else:
             _run_kernel(case, mon, os.path.join(tmp, "k"))
     finally:
@@ -447,6 +460,20 @@ def _run_project(case, mon, prefix):
     present = [(c, i) for i, (c, p) in enumerate(zip(i_w.coords, i_w.payloads)) if not _is_empty(p)]
     nonempty_ord = {c: k for k, (c, _) in enumerate(present)}
     expected = [(c, i) for c, i in present if iv[0] <= c - s < iv[1]]
+    # valid start positions (the documented precondition: everything before it lies below the interval)
+    sp = None
+    if case.get("sp", "none") != "none" and i_w.coords:
+        cands = [k for k in range(len(i_w.coords)) if k == 0 or i_w.coords[k - 1] < iv[0]]
+        cands = [k for k in cands if not expected or k <= expected[0][1]]
+        if cands:
+            sp = cands[case["spr"] % len(cands)]
+            mon.count("projections_with_start_pos")
+    ne_from_sp = {}
+    k = sp or 0
+    for c, i in present:
+        if i >= (sp or 0):
+            ne_from_sp[c] = k
+            k += 1
     rows_by = {}
     for ncu, cons in ((1000, False), (2, False), (1000, True)):
         a2 = Tensor.fromFiber(rank_ids=["W"], fiber=gen.fiber_from_spec(case["a"], d), shape=[12])
@@ -455,7 +482,8 @@ def _run_project(case, mon, prefix):
             Metrics.setNumCachedUses(ncu)
             Metrics.beginCollect(prefix)
             Metrics.trace("W", type_="project_0", consumable=cons)
-            lazy = z2.getRoot() << a2.getRoot().project(trans_fn=lambda w: w - s, interval=iv, rank_id="Q", tick=True)
+            kw = {} if sp is None else {"start_pos": Payload(sp) if case["sp"] == "boxed" else sp}
+            lazy = z2.getRoot() << a2.getRoot().project(trans_fn=lambda w: w - s, interval=iv, rank_id="Q", tick=True, **kw)
             for q, (z_ref, i_val) in lazy.iterOccupancy(tick=False):
                 z_ref += i_val
             if cons:
@@ -477,14 +505,18 @@ def _run_project(case, mon, prefix):
         return
     if not mon.check(rows[0] == ["W_pos", "W", "fiber_pos"], "project:header", f"header {rows[0]}"):
         return
-    data = [[int(x) for x in r] for r in rows[1:]]
+    try:
+        data = [[int(x) for x in r] for r in rows[1:]]
+    except ValueError:
+        mon.violation("project:row-not-integers", f"project_0 rows hold something else than integers: {rows[1:4]}; start_pos={case.get('sp')}")
+        return
     got_c = [r[1] for r in data]
     if mon.check(got_c == [c for c, _ in expected], "project:rows", f"project_0 rows address {got_c}, projected elements are {[c for c, _ in expected]}; {case}"):
         mon.count("project_rows", len(data))
         mon.count("rows_matched", len(data))
         for r, (c, raw) in zip(data, expected):
             if r[2] != raw:
-                key = "project:position-counts-nonempty-elements-only" if r[2] == nonempty_ord.get(c) else "project:position"
+                key = "project:position-counts-nonempty-elements-only" if r[2] in (nonempty_ord.get(c), ne_from_sp.get(c)) else "project:position"
                 mon.violation(key, f"project_0 row for element {c}: fiber_pos {r[2]}, index in the fiber {raw}; {case}")
                 break
     for x, y in zip(data, data[1:]):
@@ -711,3 +743,61 @@ def _run_bounded(case, mon, prefix):
     if big >= 2:
         mon.nontrivial()
     mon.state(("bounded", len(exp["iter"]), len(exp["intersect_0"])))
+
+
+def _run_stale(case, mon, prefix):
+    """Two collections with the same prefix; the trace files left by the second describe the second only."""
+    def nest(spec, order, ncu):
+        A = gen.tensor_from_spec(spec, ["M", "K"], shape=[case["M"], case["K"]], default=0)
+        exp = {"M": [], "K": []}
+        a_m = A.getRoot()
+        for mi, (m, a_k) in enumerate(zip(a_m.coords, a_m.payloads)):
+            if _is_empty(a_k):
+                continue
+            exp["M"].append((str(m), str(mi)))
+            for ki, (k, v) in enumerate(zip(a_k.coords, a_k.payloads)):
+                if not _is_empty(v):
+                    exp["K"].append((str(m), str(k), str(ki)))
+        Metrics.setNumCachedUses(ncu)
+        Metrics.beginCollect(prefix)
+        for r in ("M", "K"):
+            if order == "file":
+                Metrics.trace(r, type_="iter")
+            elif order == "mem-then-file":
+                Metrics.trace(r, type_="iter", consumable=True)
+                Metrics.trace(r, type_="iter")
+            else:
+                Metrics.trace(r, type_="iter")
+                Metrics.trace(r, type_="iter", consumable=True)
+        for m, a_k in a_m:
+            for k, v in a_k:
+                pass
+        if order != "file":
+            for r in ("M", "K"):
+                Metrics.consumeTrace(r, "iter")     # consumable traces must be drained before the collection ends
+        Metrics.endCollect()
+        return exp
+    try:
+        nest(case["a1"], "file", 1000)
+        exp = nest(case["a2"], case["order"], case["ncu"])
+    except BaseException as e:      # noqa
+        if isinstance(e, KeyboardInterrupt):
+            raise
+        mon.violation(f"second-collection:raised:{type(e).__name__}", f"second collection under the same prefix raised {type(e).__name__}: {e}; {case}")
+        return
+    mon.count("stale_file_sessions")
+    for r, ncol in (("M", 1), ("K", 2)):
+        rows = _read_csv(f"{prefix}-{r}-iter.csv") or []
+        mon.count("files_checked")
+        data = rows[1:]
+        got = [tuple(x[ncol:]) for x in data]
+        want = exp[r]
+        if mon.check(got == want, "iter:rows:second-collection-same-prefix",
+                     f"after a second collection under the same prefix (traces requested {case['order']}) file {r}/iter holds rows "
+                     f"{got[:6]}, the second collection's accesses were {want[:6]}"):
+            mon.count("rows_matched", len(want))
+        if not want:
+            mon.count("stale_files_expected_rowless")
+    if len(exp["K"]) >= 2:
+        mon.nontrivial()
+    mon.state(("stale", case["order"], len(exp["K"])))
